@@ -1,7 +1,7 @@
 #!/usr/bin/env python3
 """Directed ABA schedules for the double-word-CAS scenarios of C20 (scen/*_abadir.json).
 
-  mk_aba_picks.py <scenario> [max_seeds]
+  mk_aba_picks.py <scenario> [max_seeds [candidates]]
 
 Searches seeded schedules of the scenario (real code under the controlled scheduler) for an
 execution with the classic ABA window on the (counter, head) pair:
@@ -72,7 +72,7 @@ def find_aba(evs):
 
 
 def strip(evs):
-    return [{k: v for k, v in e.items() if k not in ("seed", "policy", "stick", "points")} for e in evs]
+    return [{k: v for k, v in e.items() if k not in ("seed", "policy", "stick", "points", "old")} for e in evs]
 
 
 def main():
@@ -82,10 +82,21 @@ def main():
     scen = dict(scen)
     binary = os.path.join(check.build("thread", scen["binary"]), scen["binary"])
     pol = {"VRT_POLICY": "rand", "VRT_STICK": "90"}
+    cands, ncand = [], int(sys.argv[3]) if len(sys.argv) > 3 else 12
     for seed in range(1, maxs + 1):
         evs, picks = run(binary, scen, seed, extra=pol)
         k = find_aba(evs)
         if k is None:
+            continue
+        # robustness against small shifts of the decision sequence (a mutant with one more or one less
+        # scheduling point per attempt): the stalled thread's attempt is its first activity, nobody else has
+        # failed a CAS before, and the last three events before the stale CAS are steps of another thread
+        # that change nothing (slack), so that the interfering operations still complete
+        a = evs[k]["t"]
+        steps = [e for e in evs[:k] if e.get("k") not in ("api", "begin", "reg", "fence")]
+        first_a = [e for e in steps if e.get("t") == a]
+        if (any(e.get("k") == "CAS2" and e.get("ok") == 0 for e in steps) or len(first_a) > 4
+                or any(e.get("t") == a or e.get("w") for e in steps[-3:])):
             continue
         want = strip(evs[1:k + 1])
         # shortest prefix of the decisions that reproduces the execution up to the CAS under other seeds
@@ -105,9 +116,19 @@ def main():
                 hi = mid
             else:
                 lo = mid + 1
+        # among the candidates prefer the one in which the stalled thread is preempted EARLIEST after its
+        # last read (fewest turns of that thread: scheduling points on its private snapshot are not events)
+        turns = sum(1 for x in picks[:hi] if x == int(a[1:]))
+        cands.append((turns, hi, seed, k, picks[:hi], evs[k]))
+        if len(cands) >= ncand:
+            break
+    if cands:
+        cands.sort(key=lambda c: (c[0], c[1]))
+        turns, hi, seed, k, pk, ev = cands[0]
         out = os.path.join(ROOT, "scen", name + ".picks")
-        open(out, "w").write("\n".join(str(x) for x in picks[:hi]) + "\n")
-        print(f"{name}: seed {seed}: ABA at event {k} ({json.dumps(evs[k])[:120]}); {hi} of {len(picks)} decisions -> {out}")
+        open(out, "w").write("\n".join(str(x) for x in pk) + "\n")
+        print(f"{name}: {len(cands)} candidates; seed {seed}: ABA at event {k} ({json.dumps(ev)[:100]}); {hi} decisions, "
+              f"{turns} turns of the stalled thread -> {out}")
         return 0
     print("no ABA execution found")
     return 1
